@@ -117,7 +117,8 @@ class Ctx(object):
             # a refuted obligation found on another path stands on its own: it is reported (exit 1);
             # without one, paths outside the supported subset mean "cannot verify" (exit 3)
             self.path_errors = list(errors)
-            if not any(r.verdict == 'refuted' for r in records):
+            known = load_known()
+            if not any(r.verdict == 'refuted' and match_known(known, self.pid, r) is None for r in records):
                 raise CheckerError('%d path(s) left the supported subset or crashed; first: %s'
                                    % (len(errors), errors[0]))
             print('NOTE property=%s %d path(s) left the supported subset (first: %s); reporting the refuted '
